@@ -811,6 +811,11 @@ func (p *Path) builtin(name string, args []Value, c *ssa.CallCommon) Value {
 		return Iface{}
 	case "print", "println":
 		return nil
+	case "ssa:wrapnilchk":
+		if ptr, ok := args[0].(Ptr); ok && ptr.Obj == 0 {
+			p.raise("nil", "value method called using nil pointer", nil)
+		}
+		return args[0]
 	case "close":
 		return nil
 	case "delete":
